@@ -23,88 +23,12 @@ Definition parse_expr_string (uni_letter uni_digit : Z -> bool) (s : bstr) : out
   | Err m => Err m | Crash m => Crash m | Diverge => Diverge | OutOfFuel => OutOfFuel | OutOfModel => OutOfModel
   end.
 
-(* ---------- every float item of a printed well-formed tree denotes a float of the model ---------- *)
-Definition fine (t : tok) : Prop := t_typ t = pk_itemFloat -> parse_float (t_val t) <> None.
-
-Lemma fine_parens k ts : Forall fine ts -> Forall fine (parens k ts).
-Proof.
-  induction k as [|k IH]; intros H; [exact H|]. cbn [parens]. constructor; [intros E; vm_compute in E; discriminate|].
-  apply Forall_app. split; [apply IH; exact H|]. constructor; [intros E; vm_compute in E; discriminate|constructor].
-Qed.
-
-Lemma fine_sep_join ls : Forall (Forall fine) ls -> Forall fine (sep_join [T_comma] ls).
-Proof.
-  induction ls as [|x ls IH]; intros H; [constructor|]. inversion H as [|x' ls' Hx Hl]; subst.
-  destruct ls as [|y ls]; [exact Hx|]. rewrite sep_join_cons2. apply Forall_app. split; [exact Hx|].
-  apply Forall_app. split; [constructor; [intros E; vm_compute in E; discriminate|constructor]|]. apply IH. exact Hl.
-Qed.
-
-Lemma fine_mapi {A} (f : nat -> A -> list tok) l : (forall i x, In x l -> Forall fine (f i x)) -> forall i,
-  Forall (Forall fine) (mapi_from f i l).
-Proof.
-  induction l as [|x l IH]; intros H i; [constructor|]. rewrite mapi_from_cons. constructor.
-  - apply H. left. reflexivity.
-  - apply IH. intros j y Hy. apply H. right. exact Hy.
-Qed.
-
-Lemma fine_concat ls : Forall (Forall fine) ls -> Forall fine (List.concat ls).
-Proof. induction ls as [|x ls IH]; intros H; [constructor|]. inversion H; subst. cbn [List.concat]. apply Forall_app. auto. Qed.
-
-Ltac notfloat := let E := fresh "E" in intros E; cbn [t_typ tk op_tok] in E; vm_compute in E; discriminate.
-
-Lemma show_fine sty : forall e path, wf_expr e -> Forall fine (show sty path e).
-Proof.
-  induction e as [e IH] using size_induction. intros path Hwf.
-  destruct e; cbn [wf_expr] in Hwf; try contradiction; cbn [show].
-  - constructor; [notfloat|constructor].
-  - constructor; [notfloat|constructor].
-  - constructor; [notfloat|constructor].
-  - constructor; [|constructor]. intros _. cbn [t_val tk]. destruct Hwf as (s & Hp & Hq). rewrite Hp, Hq. discriminate.
-  - constructor; [notfloat|constructor].
-  - unfold global_toks. destruct (split_dots [] name) as [|f r]; [constructor|]. constructor; [notfloat|].
-    apply Forall_forall. intros t Ht. apply in_map_iff in Ht. destruct Ht as (s & <- & _). notfloat.
-  - constructor; [notfloat|]. constructor; [notfloat|]. apply Forall_app. split; [|constructor; [notfloat|constructor]].
-    apply fine_sep_join, fine_mapi. intros i c Hc. apply fine_parens, IH; [|exact (allP_In _ _ _ Hwf Hc)].
-    cbn [size]. pose proof (size_in_list c args Hc). lia.
-  - constructor; [notfloat|]. apply Forall_app. split; [|constructor; [notfloat|constructor]].
-    apply fine_sep_join, fine_mapi. intros i c Hc. apply fine_parens, IH; [|exact (allP_In _ _ _ Hwf Hc)].
-    cbn [size]. pose proof (size_in_list c items Hc). lia.
-  - destruct Hwf as [Hwf _]. destruct items as [|kv0 items0] eqn:Eit.
-    { constructor; [notfloat|]. constructor; [notfloat|]. constructor; [notfloat|constructor]. }
-    rewrite <- Eit in *. constructor; [notfloat|]. apply Forall_app. split; [|constructor; [notfloat|constructor]].
-    apply fine_sep_join, fine_mapi. intros i kv Hkv. constructor; [notfloat|]. constructor; [notfloat|].
-    apply fine_parens, IH; [|exact (proj2 (allP_In _ _ _ Hwf Hkv))].
-    cbn [size]. pose proof (list_sum_In (fun kv => size (snd kv)) kv _ Hkv). lia.
-  - constructor; [notfloat|]. apply fine_concat, fine_mapi. intros i a Ha.
-    pose proof (allP_In _ _ _ Hwf Ha) as Hwa. pose proof (size_in_list a access Ha) as Hsz.
-    destruct a; try contradiction; cbn [show].
-    + constructor; [destruct nullsafe; notfloat|constructor].
-    + constructor; [destruct nullsafe; notfloat|constructor].
-    + constructor; [destruct nullsafe; notfloat|]. apply Forall_app. split; [|constructor; [notfloat|constructor]].
-      apply fine_parens, IH; [cbn [size] in *; lia | exact Hwa].
-  - constructor; [notfloat|]. apply fine_parens, IH; [cbn [size]; lia | exact Hwf].
-  - constructor; [notfloat|]. apply fine_parens, IH; [cbn [size]; lia | exact Hwf].
-  - destruct Hwf as [H1 H2]. apply Forall_app. split; [apply fine_parens, IH; [cbn [size]; lia | exact H1]|].
-    constructor; [destruct op; notfloat|]. apply fine_parens, IH; [cbn [size]; lia | exact H2].
-  - destruct Hwf as (_ & H1 & H2 & H3). apply Forall_app. split; [apply fine_parens, IH; [cbn [size]; lia | exact H1]|].
-    constructor; [notfloat|]. apply Forall_app. split; [apply fine_parens, IH; [cbn [size]; lia | exact H2]|].
-    constructor; [notfloat|]. apply fine_parens, IH; [cbn [size]; lia | exact H3].
-Qed.
-
 (* ---------- items that agree in type and text agree after erasing positions ---------- *)
 Lemma tv_strip ts1 ts2 : map tv ts1 = map tv ts2 -> map strip_tok ts1 = map strip_tok ts2.
 Proof.
   intros H. assert (G : forall ts, map strip_tok ts = map (fun p => tk (fst p) 0 (snd p)) (map tv ts)).
   { intros ts. rewrite map_map. reflexivity. }
   rewrite (G ts1), (G ts2), H. reflexivity.
-Qed.
-
-Lemma tv_floats_ok ts us : map tv ts = map tv us -> Forall fine us -> floats_ok ts.
-Proof.
-  intros H Hf. unfold floats_ok. apply Forall_forall. intros t Ht Hty.
-  assert (Hin : In (tv t) (map tv us)) by (rewrite <- H; apply in_map; exact Ht).
-  apply in_map_iff in Hin. destruct Hin as (u & Hu & Hinu). rewrite Forall_forall in Hf. specialize (Hf u Hinu).
-  unfold tv in Hu. injection Hu as Hu1 Hu2. unfold fine in Hf. rewrite Hu1, Hu2 in Hf. apply Hf. exact Hty.
 Qed.
 
 Lemma closer_error t : t_typ t = itemError -> closer t = true.
@@ -155,15 +79,12 @@ Proof.
   specialize (HF f0 (le_n _)). rewrite <- Hall, <- parse_expr_top_strip in HF.
   destruct (zr_ok_inv _ _ _ _ HF) as (e' & st' & Hrun & He' & _).
   (* the scanner's items are well-formed for the parser *)
-  destruct (lex_expr_items_wf uni_letter uni_digit letter_eof digit_eof txt) as (ts0 & Hl0 & Hwf0).
+  destruct (lex_items_total _ _ letter_eof digit_eof true txt) as (ts0 & Hl0 & Hscan).
   rewrite Hlex in Hl0. injection Hl0 as <-.
-  assert (Hfl : floats_ok all).
-  { unfold all, floats_ok. apply Forall_app. split.
-    - apply (tv_floats_ok ts (tokens_of e) Hm). apply show_fine. exact Hwf.
-    - constructor; [|constructor]. intros E. rewrite Herr in E. vm_compute in E. discriminate. }
+  pose proof (scan_items_wf_all _ _ Hscan) as Hiw.
   exists e', st'. split; [|exact He'].
   unfold parse_expr_string. rewrite Hlex. f_equal.
-  apply (soy_expr_of_big_fuel _ all f0 e' st' (Hwf0 Hfl) Hrun).
+  apply (soy_expr_of_big_fuel _ all f0 e' st' Hiw Hrun).
 Qed.
 
 (* string-level injectivity: two well-formed (and lexically well-formed) expressions that print the same
